@@ -82,6 +82,28 @@ def angles(seed, pos):
     return th, ph
 
 
+def detector_matrix(ncols):
+    """P[n][m] = p(detected n | actual m), ncols x ncols, every column sums to 1: losses (detected < actual, geometric
+    weights), the true count, and one dark count (detected = actual + 1) wherever it fits -- so every actual count
+    fans out into at least two detected counts.  Deterministic, not a function of the seed."""
+    P = [[0.0] * ncols for _ in range(ncols)]
+    for m in range(ncols):
+        w = {n: 0.3 ** (m - n) for n in range(m + 1)}
+        if m + 1 < ncols:
+            w[m + 1] = 0.125
+        tot = sum(w.values())
+        for n, v in w.items():
+            P[n][m] = v / tot
+    return P
+
+
+IPNM = "ImperfectParticleNumberMeasurement"
+
+
+def has_ipnm(case):
+    return any(op["k"] == "ipnm" for op in case.get("ops", ()))
+
+
 def initial_terms(simkind, init, d):
     """[(coefficient, occupation)] of a pure state, or [(probability, [(coefficient, occupation)])] for "mix" """
     z = (0,) * (d - 2)
@@ -197,6 +219,8 @@ def build_instructions(case):
             ins.append(_lib_gate(pq, op))
         elif op["k"] == "pnm":
             ins.append(pq.ParticleNumberMeasurement().on_modes(*op["modes"]))
+        elif op["k"] == "ipnm":
+            ins.append(pq.ImperfectParticleNumberMeasurement(detector_efficiency_matrix=np.array(detector_matrix(op["ncols"]))).on_modes(*op["modes"]))
         elif op["k"] == "ps":
             ins.append(pq.PostSelectPhotons(photon_counts=tuple(op["counts"])).on_modes(*op["modes"]))
         else:
@@ -225,6 +249,9 @@ def ref_initial(case):
 def ref_ops(case):
     ops = []
     for op in case["ops"]:
+        if op["k"] == "ipnm":
+            ops.append({"k": "ipnm", "modes": op["modes"], "P": detector_matrix(op["ncols"])})
+            continue
         if op["k"] != "gate":
             ops.append(op)
             continue
@@ -321,6 +348,70 @@ def enum_programs(simkind, d, depth, max_meas, letters, allow_ps, terminal_only,
     return out
 
 
+def ishots_N(ops, bounds):
+    """bounds {N: (largest number of modes of an imperfect measurement, largest number of ops behind the first
+    measurement)}: the detector draws of an m-mode imperfect measurement are sequences (3**(m N) per actual outcome)"""
+    first = next(j for j, op in enumerate(ops) if op["k"] in ("ipnm", "pnm"))
+    n_behind = len(ops) - 1 - first
+    width = max(len(op["modes"]) for op in ops if op["k"] == "ipnm")
+    return [N for N, (maxwidth, maxbehind) in sorted(bounds.items()) if width <= maxwidth and n_behind <= maxbehind]
+
+
+def enum_imperfect_programs(simkind, d, ncols, depth, max_meas, max_gates, letters, allow_ps, seed, mid, allow_pnm_mid, pre_gate):
+    """programs around an ImperfectParticleNumberMeasurement (IPNM).
+    mid=True (the simulator allows it mid-circuit): [Gu] IPNM(S) for EVERY ordered strict subset S of the modes (and S =
+      all modes, terminal), followed by every op sequence over {PNM(T) | IPNM(T) for every ordered non-empty subset T
+      of the remaining modes, PS(m, 0|1), the five gate letters} with at most `depth` ops behind the first IPNM, at
+      most `max_meas` measurements and `max_gates` gates behind it;
+    mid=False (terminal only): [Gu] IPNM(T) for every ordered subset T, and -- if PNM is allowed mid-circuit --
+      PNM(S), [gate letter], IPNM(T) for every ordered strict subset S and every ordered subset T of the rest."""
+    from mc.refmodel.projref import ordered_subsets
+
+    out = []
+    all_modes = list(range(d))
+
+    def ip(S):
+        return {"k": "ipnm", "modes": list(S), "ncols": ncols}
+
+    pres = [[]] + ([[make_gate(simkind, "Gu", all_modes, 0, seed)]] if pre_gate else [])
+    if not mid:
+        for pre in pres:
+            for T in ordered_subsets(all_modes):
+                out.append(pre + [ip(T)])
+        if allow_pnm_mid:
+            for S in ordered_subsets(all_modes):
+                rest = [m for m in all_modes if m not in S]
+                if not rest:
+                    continue
+                for letter in (None,) + tuple(letters):
+                    g = [make_gate(simkind, letter, rest, 1, seed)] if letter else []
+                    for T in ordered_subsets(rest):
+                        out.append([{"k": "pnm", "modes": list(S)}] + g + [ip(T)])
+        return out
+
+    def rec(active, ops, n_behind, n_meas, n_gates):
+        out.append(list(ops))
+        if n_behind == depth or not active:
+            return
+        if n_meas < max_meas:
+            for T in ordered_subsets(active):
+                rest = [m for m in active if m not in T]
+                rec(rest, ops + [{"k": "pnm", "modes": list(T)}], n_behind + 1, n_meas + 1, n_gates)
+                rec(rest, ops + [ip(T)], n_behind + 1, n_meas + 1, n_gates)
+            if allow_ps:
+                for m in active:
+                    for c in (0, 1):
+                        rec([x for x in active if x != m], ops + [{"k": "ps", "modes": [m], "counts": [c]}], n_behind + 1, n_meas + 1, n_gates)
+        if n_gates < max_gates:
+            for letter in letters:
+                rec(active, ops + [make_gate(simkind, letter, active, len(ops), seed)], n_behind + 1, n_meas, n_gates + 1)
+
+    for pre in pres:
+        for S in ordered_subsets(all_modes):
+            rec([m for m in all_modes if m not in S], pre + [ip(S)], 0, 0, 0)
+    return out
+
+
 # ---------------------------------------------------------------------------------------
 # observation of a Result (plain data)
 
@@ -365,7 +456,7 @@ def observe(simkind, res, shots, with_states=True):
 
 
 def input_class(case):
-    n_pnm = sum(1 for op in case["ops"] if op["k"] == "pnm")
+    n_pnm = sum(1 for op in case["ops"] if op["k"] in ("pnm", "ipnm"))
     has_ps = any(op["k"] == "ps" for op in case["ops"])
     if n_pnm >= 2:
         return "sequential_partial_measurements"
@@ -378,6 +469,8 @@ def sig(case, sub, **extra):
     s = {"check": "C03", "sub": sub, "simulator": SIM_NAMES[case["sim"]], "input_class": input_class(case)}
     if sub.startswith("branch_state"):
         s["input_class"] = "after_partial_measurement"
+    if has_ipnm(case):
+        s["measurement"] = IPNM
     s.update(extra)
     return s
 
@@ -450,12 +543,14 @@ def compare_weight_maps(got, ref, tol=TOL):
 
 
 def _unsupported(e):
-    from piquasso.api.exceptions import NotImplementedCalculation, InvalidSimulation
+    from piquasso.api.exceptions import NotImplementedCalculation, InvalidSimulation, InvalidParameter
 
     if isinstance(e, (NotImplementedCalculation, NotImplementedError)):
         return "not_implemented"
     if isinstance(e, InvalidSimulation) and "not allowed as a mid-circuit" in str(e):
         return "mid_circuit_not_allowed"
+    if isinstance(e, InvalidParameter) and "does not support 'shots=None'" in str(e):
+        return "shots_none_not_supported"
     return None
 
 
@@ -480,7 +575,102 @@ def check_tree(case, stats):
         verdicts.append((sig(case, "exception", exception=type(e).__name__), "shots=None raised %s: %s" % (type(e).__name__, str(e)[:300])))
         return verdicts
     leaves = R.run_tree(ref_initial(case), ref_ops(case))
-    verdicts.extend(_compare_tree(case, obs, leaves, stats))
+    if has_ipnm(case):
+        verdicts.extend(_compare_tree_pairs(case, obs, leaves, stats))
+    else:
+        verdicts.extend(_compare_tree(case, obs, leaves, stats))
+    return verdicts
+
+
+SAME_DETECTED = "same_detected_outcome_from_several_actual_outcomes"
+
+
+def _aggregate(pairs):
+    out = {}
+    for k, v in pairs:
+        out[k] = out.get(k, 0.0) + v
+    return out
+
+
+def _compare_tree_pairs(case, obs, leaves, stats):
+    """programs with an imperfect detector: the implementation keeps one branch per (actual, detected) pair, all pairs
+    of one detected outcome carrying that outcome.  Demanded: the total weight of every reported outcome is its exact
+    joint probability sum_actual P(detected | actual) p(actual, ...); the branches of one outcome are, pair by pair,
+    the reference pairs: weight p(actual) P(detected | actual) and the normalised projection on the ACTUAL outcome
+    evolved by the later gates with the parameters of the REPORTED outcome."""
+    from mc.refmodel import projref as R
+
+    verdicts = []
+    simkind = case["sim"]
+    ref_by, got_by = {}, {}
+    for lf in leaves:
+        ref_by.setdefault(lf.outcome, []).append(lf)
+    for b in obs["branches"]:
+        got_by.setdefault(b["outcome"], []).append(b)
+    stats["branches"] = stats.get("branches", 0) + len(obs["branches"])
+    ref_w = _aggregate((lf.outcome, lf.weight) for lf in leaves)
+    got_w = _aggregate((b["outcome"], float(b["freq"])) for b in obs["branches"])
+    sequential = input_class(case).startswith("sequential")
+    worst, wk = compare_weight_maps(got_w, ref_w)
+    if worst > TOL:
+        msg = "outcome weights differ from the joint outcome probabilities by %.3g at %s (sum of weights %.12g, expected %.12g): got %s expected %s" % (
+            worst, wk, sum(got_w.values()), sum(ref_w.values()), _fmt_map(got_w), _fmt_map(ref_w))
+        if simkind == "passive" and sequential:
+            # is the deviation exactly the known double count (branch state left un-normalised by a measurement)?
+            w2 = _aggregate((lf.outcome, lf.weight) for lf in R.run_tree(ref_initial(case), ref_ops(case), renormalise=False))
+            if compare_weight_maps(got_w, w2)[0] <= TOL:
+                verdicts.append((sig(case, "chain_rule"), "[exactly the known double count of the history] " + msg))
+            else:
+                verdicts.append((dict(sig(case, "chain_rule"), input_class="sequential_measurements_not_the_known_double_count"), msg))
+        else:
+            verdicts.append((sig(case, "chain_rule" if sequential else "weights"), msg))
+        return verdicts
+    if abs(sum(got_w.values()) - sum(ref_w.values())) > TOL * max(1, len(ref_w)) + DROP * sum(1 for v in ref_w.values() if v <= DROP):
+        verdicts.append((sig(case, "weight_sum"), "sum of weights %.12g, norm of the measured state %.12g" % (sum(got_w.values()), sum(ref_w.values()))))
+    kinds = {}
+    for o, gl_all in got_by.items():
+        gl = [b for b in gl_all if float(b["freq"]) > DROP]
+        stats["zero_weight_branches"] = stats.get("zero_weight_branches", 0) + len(gl_all) - len(gl)
+        rl = [lf for lf in ref_by.get(o, []) if lf.weight > DROP]
+        if len(gl) != len(rl):
+            # another (legitimate) representation of the mixture behind one reported outcome: only the totals are judged
+            stats["pair_structure_differs"] = stats.get("pair_structure_differs", 0) + 1
+            continue
+        free = list(rl)
+        for b in gl:
+            w = float(b["freq"])
+            cands = sorted((lf for lf in free if abs(lf.weight - w) <= TOL), key=lambda lf: abs(lf.weight - w))
+            if not cands:
+                kinds.setdefault("pair", "outcome %s: a branch has weight %.12g, the (actual, detected) pairs of this outcome weigh %s" % (o, w, ["%.12g" % lf.weight for lf in rl]))
+                continue
+            pick, res = None, None
+            for lf in cands:  # equal weights: the pair whose state fits
+                kind, detail = compare_state(simkind, lf.state, b["state"])
+                if kind in (None, "norm"):
+                    pick, res = lf, (kind, detail)
+                    break
+                if pick is None:
+                    pick, res = lf, (kind, detail)
+            free.remove(pick)
+            stats["states_compared"] = stats.get("states_compared", 0) + 1
+            stats["pairs_matched"] = stats.get("pairs_matched", 0) + 1
+            if res[0]:
+                kinds.setdefault(res[0], "outcome %s (actual history %s): %s" % (o, pick.actual, res[1]))
+    for kind, detail in sorted(kinds.items()):
+        sub = {"norm": "branch_state_norm", "direction": "branch_state", "shape": "branch_state_shape", "lost": "branch_state_cutoff", "pair": "pair_weights"}[kind]
+        verdicts.append((sig(case, sub), detail))
+    # Result.outcome_map: the entry of an outcome must carry the weight of that outcome
+    dup = any(len(v) > 1 for v in got_by.values())
+    om = {k: f for k, f, _, _ in obs["outcome_map"]}
+    bad = [(k, float(f), got_w.get(k)) for k, f in om.items() if abs(float(f) - got_w.get(k, 0.0)) > TOL]
+    if bad or set(om) != set(got_w):
+        verdicts.append(
+            (
+                dict(sig(case, "outcome_map"), input_class=SAME_DETECTED if dup else input_class(case)),
+                "Result.outcome_map gives outcome %s the weight %.12g, the branches with that outcome weigh %.12g in total (sum over the map %.12g)"
+                % (bad[0][0], bad[0][1], bad[0][2], sum(float(f) for f in om.values())) if bad else "Result.outcome_map misses outcomes",
+            )
+        )
     return verdicts
 
 
@@ -497,7 +687,7 @@ def _ascending_variant(case):
                 op["modes"] = sorted(op["modes"])
                 changed = True
             active = [m for m in active if m not in op["modes"]]
-        elif op["k"] == "ps":
+        elif op["k"] in ("ps", "ipnm"):
             active = [m for m in active if m not in op["modes"]]
         ops.append(op)
     return changed, ops
@@ -700,7 +890,8 @@ def check_shots(case, stats):
     program = pq.Program(instructions=build_instructions(case))
     rops = ref_ops(case)
     st0 = ref_initial(case)
-    n_out = sum(len(op["modes"]) for op in case["ops"] if op["k"] == "pnm")
+    n_out = sum(len(op["modes"]) for op in case["ops"] if op["k"] in ("pnm", "ipnm"))
+    imperfect = has_ipnm(case)
     # a history whose post-selection is impossible leaves a zero state; sampling from it is undefined (the Fock
     # simulators hand random.choices all-zero weights): not a subject of the property
     degenerate = []
@@ -740,7 +931,7 @@ def check_shots(case, stats):
             return
         mass["ok"] += path.prob
         obs = path.result
-        answers = [r for r in path.records if r[0] in ("choices_answer", "passive_sampler")]
+        answers = [r for r in path.records if r[0] in ("choices_answer", "passive_sampler", "detector_draw")]
         # ---- independent bookkeeping of what the draws dictated
         branches = [_RefBranch((), N, st0, {})]
         ai = 0
@@ -768,6 +959,9 @@ def check_shots(case, stats):
                 rec = answers[ai][1]
                 ai += 1
                 rb = None
+                if answers[ai - 1][0] == "detector_draw":
+                    bad = ("budget", "the measurement %s drew from a detector before sampling the photon numbers of a waiting branch" % (op["modes"],))
+                    break
                 if answers[ai - 1][0] == "choices_answer":
                     k = rec["k"]
                     tot = sum(rec["weights"])
@@ -791,16 +985,29 @@ def check_shots(case, stats):
                 else:
                     k = rec["shots"]
                     ps = dict(zip(*rec["postselect"])) if rec["postselect"] and rec["postselect"][0] else {}
-                    for cand in pending:
-                        if cand.labels == ps:
-                            rb = cand
-                            break
-                    if rb is None:
+                    cands = [c for c in pending if c.labels == ps]
+                    if not cands:
                         bad = ("budget", "a passive sampler ran with postselection %s which is no pending history %s" % (ps, [c.labels for c in pending]))
                         break
-                    if rb.count != k:
-                        bad = ("nested_budget", "the branch with history %s holds %d shots but the sampler was asked for %s" % (rb.outcome, rb.count, k))
+                    cands2 = [c for c in cands if c.count == k]
+                    if not cands2:
+                        bad = ("nested_budget", "the branch with history %s holds %d shots but the sampler was asked for %s" % (cands[0].outcome, cands[0].count, k))
                         break
+                    rb = cands2[0]
+                    if rec.get("law") is not None:
+                        # the sampler entry point is owned: the law of the state it was handed must be the conditional
+                        # law of the history (several waiting branches may share actual photon numbers and a count)
+                        got_law = dict(rec["law"])
+                        rb = None
+                        for cand in cands2:
+                            full = rec["name"] != "generate_marginal_samples"
+                            ref_law = _norm_law(R.marginal_law(cand.leaf, list(cand.leaf.modes) if full else op["modes"]))
+                            if compare_weight_maps(got_law, ref_law)[0] <= TOL and compare_weight_maps(ref_law, got_law)[0] <= TOL:
+                                rb = cand
+                                break
+                        if rb is None:
+                            bad = ("chain_rule", "after the history %s the measurement of %s samples from a state with the law %s, the conditional law is %s" % (cands2[0].outcome, op["modes"], _fmt_map(got_law), _fmt_map(ref_law)))
+                            break
                     act = list(rb.leaf.modes)
                     if rec["name"] == "generate_marginal_samples":
                         samples = rec["samples"]
@@ -815,7 +1022,37 @@ def check_shots(case, stats):
                     binned[s] = binned.get(s, 0) + 1
                 for s, c in binned.items():
                     leaf, p = R.project(rb.leaf, op["modes"], s, normalise=True)
-                    new.append(_RefBranch(rb.outcome + s, c, leaf if leaf.modes else None, {**rb.labels, **dict(zip(op["modes"], s))}))
+                    leaf = leaf if leaf.modes else None
+                    labels = {**rb.labels, **dict(zip(op["modes"], s))}
+                    if op["k"] == "pnm":
+                        new.append(_RefBranch(rb.outcome + s, c, leaf, labels))
+                        continue
+                    # imperfect detector: the c shots with the actual photon numbers s get one detected count per measured
+                    # mode and shot, drawn from the column of the detector matrix; the draws are paired positionally
+                    cols = []
+                    for m_act in s:
+                        if ai >= len(answers) or answers[ai][0] != "detector_draw":
+                            bad = ("budget", "the imperfect measurement of %s made fewer detector draws than it has (actual outcome, mode) pairs" % (op["modes"],))
+                            break
+                        drec = answers[ai][1]
+                        ai += 1
+                        if drec["size"] != c:
+                            bad = ("nested_budget", "the %d shots with the actual photon numbers %s got %s detector draws" % (c, s, drec["size"]))
+                            break
+                        col = [row[m_act] for row in op["P"]]
+                        if drec["n"] != len(col) or max(abs(a - b_) for a, b_ in zip(drec["p"], col)) > 1e-12:
+                            bad = ("detector_law", "the detector draw for the actual photon number %d uses p = %s, the column of the detector matrix is %s" % (m_act, drec["p"], col))
+                            break
+                        cols.append(drec["answer"])
+                    if bad:
+                        break
+                    dbinned = {}
+                    for det in zip(*cols):
+                        dbinned[det] = dbinned.get(det, 0) + 1
+                    for det, c2 in dbinned.items():
+                        new.append(_RefBranch(rb.outcome + det, c2, leaf.copy() if leaf is not None else None, labels))
+                if bad:
+                    break
             if bad:
                 break
             branches = new
@@ -882,8 +1119,21 @@ def check_shots(case, stats):
                 add(sig(case, "frequency_sum"), "branch frequencies sum to %s" % (total,), path)
             if seen != {o: Fraction(c, N) for o, c in expected.items()}:
                 add(sig(case, "frequencies"), "branch frequencies %s, the draws dictated %s" % (seen, expected), path)
-        if len({b["outcome"] for b in obs["branches"]}) != len(obs["branches"]):
+        dup_out = len({b["outcome"] for b in obs["branches"]}) != len(obs["branches"])
+        if dup_out and not imperfect:
             add(sig(case, "duplicate_outcome"), "two branches carry the same outcome", path)
+        if dup_out and imperfect and not any(not isinstance(b["freq"], Fraction) for b in obs["branches"]):
+            # one branch per (actual, detected) pair: the entry of an outcome in Result.outcome_map must still carry the
+            # frequency of that outcome
+            omf = {k: f for k, f, _, _ in obs["outcome_map"]}
+            wrong = sorted(k for k in seen if omf.get(k) != seen[k])
+            if wrong:
+                add(
+                    dict(sig(case, "outcome_map"), input_class=SAME_DETECTED),
+                    "shots=%d: Result.outcome_map gives outcome %s the frequency %s, the branches with that outcome hold %s (sum over the map %s)"
+                    % (N, wrong[0], omf.get(wrong[0]), seen[wrong[0]], sum(omf.values())),
+                    path,
+                )
         counts = obs["counts"]
         if sum(counts.values()) != N or counts != expected:
             add(sig(case, "counts"), "get_counts() = %s, the draws dictated %s (sum must be %d)" % (counts, expected, N), path)
@@ -908,7 +1158,21 @@ def check_shots(case, stats):
                 add(sig(case, sub), "shots=%d, history %s: %s" % (N, b["outcome"], detail), path)
 
     ctl = ChoiceController(max_paths=case.get("max_paths", 200000))
-    with owned_randomness(ctl, choices_mode="multiset", shuffle_mode="identity"):
+    # detector draws: an imperfect measurement of ONE mode only bins its draws (every multiset is exact); the draws of
+    # several modes are paired shot by shot (every ordered sequence)
+    size_mode = "multiset" if all(len(op["modes"]) == 1 for op in case["ops"] if op["k"] == "ipnm") else "sequence"
+    with owned_randomness(ctl, choices_mode="multiset", shuffle_mode="identity", rng_size_mode=size_mode) as config_rng:
+        if imperfect:
+            # the detector draws of the imperfect measurement (Config.rng.choice(n, size=multiplicity, p=column)): every
+            # ordered sequence is a path (the draws of several modes are paired positionally); the answers are recorded
+            orig_choice = config_rng.choice
+
+            def rng_choice(a, size=None, replace=True, p=None, **kw):
+                out = orig_choice(a, size=size, replace=replace, p=p, **kw)
+                ctl.record("detector_draw", n=int(a), size=size, p=[float(x) for x in p], answer=[int(x) for x in out])
+                return out
+
+            config_rng.choice = rng_choice
         with recording(ctl, passive=case.get("sampler", "real")):
             if case.get("prefix") is not None:
                 on_path(ctl.run(fn, tuple(case["prefix"])))
@@ -935,7 +1199,7 @@ def check_shots(case, stats):
     if N == 1 and not out and mass["ok"] > 0 and not ps_after_pnm:
         leaves = R.run_tree(st0, rops)
         tot = sum(lf.weight for lf in leaves)
-        ref = {lf.outcome: lf.weight / tot for lf in leaves if lf.weight > 0}
+        ref = _aggregate((lf.outcome, lf.weight / tot) for lf in leaves if lf.weight > 0)
         got = {}
         for hist, p in law.items():
             got[hist[0][0]] = got.get(hist[0][0], 0.0) + p / mass["ok"]
@@ -1311,6 +1575,8 @@ def _bounds(tier):
             inits={"pure": ("n11", "sup"), "fock": ("mix",), "passive": ("n11", "n2"), "fermi": ("f11", "fsup")},
             shots_inits={"pure": ("n11",), "fock": ("mix",), "passive": ("n11",), "fermi": ("fsup",)},
             budget={2: 120, 3: 24},
+            itree=dict(depth=2, max_meas=1, max_gates=1, pre_gate=False, ds=(2, 3), inits={"pure": ("n11",), "fock": ("mix",), "passive": ("n11", "n2")}),
+            ishots=dict(depth=2, max_meas=1, max_gates=1, pre_gate=False, ds=(2, 3), N={1: (9, 2), 2: (1, 2), 3: (1, 0)}, inits={"pure": ("n11",), "fock": ("mix",), "passive": ("n11",)}),
         )
     return dict(
         ds=(2, 3, 4),
@@ -1323,6 +1589,8 @@ def _bounds(tier):
         inits_d4={"pure": ("n11", "sup"), "fock": ("mix",), "passive": ("n11", "n2"), "fermi": ("f11", "fsup")},
         shots_inits={"pure": ("n11", "sup"), "fock": ("mix",), "passive": ("n11", "n2"), "fermi": ("fsup", "fnum")},
         budget={2: 400, 3: 60},
+        itree=dict(depth=3, max_meas=2, max_gates=2, pre_gate=True, ds=(2, 3), inits={"pure": ("n11", "sup"), "fock": ("mix",), "passive": ("n11", "n2", "n21")}),
+        ishots=dict(depth=2, max_meas=1, max_gates=1, pre_gate=True, ds=(2, 3), N={1: (9, 2), 2: (1, 2), 3: (1, 1), 4: (1, 0)}, inits={"pure": ("n11", "sup"), "fock": ("mix",), "passive": ("n11", "n2")}),
     )
 
 
@@ -1360,12 +1628,21 @@ def _items(tier):
                 for ch in range(n):
                     items.append(("shots", simkind, d, init, ch, n))
     items.append(("gauss", "gauss", 0, "", 0, 1))
+    for fam in ("itree", "ishots"):
+        for simkind in ("passive", "pure", "fock"):
+            for d in b[fam]["ds"]:
+                for init in b[fam]["inits"][simkind]:
+                    n = 1
+                    if simkind == "passive" and d == 3:
+                        n = {"quick": 2, "thorough": 8}[tier] * (2 if fam == "ishots" else 1)
+                    for ch in range(n):
+                        items.append((fam, simkind, d, init, ch, n))
     for simkind in ("pure", "passive", "fermi", "fock"):
         n = 1 if simkind == "fock" else {"quick": 2, "thorough": 12}[tier]
         for ch in range(n):
             items.append(("budget", simkind, 3, "f1" if simkind == "fermi" else "n1", ch, n))
     # heavy items first (the pool takes them in order): shots at d = 3, then trees
-    order = {"shots": 0, "tree": 1, "part": 2, "gauss": 2, "budget": 1}
+    order = {"shots": 0, "tree": 1, "part": 2, "gauss": 2, "budget": 1, "itree": 1, "ishots": 0}
     items.sort(key=lambda it: (order[it[0]], -it[2]))
     return items
 
@@ -1436,6 +1713,35 @@ def work(ctx, item):
     mid = sim._measurement_classes_allowed_mid_circuit
     allow_mid = pq.ParticleNumberMeasurement in mid
     allow_ps = pq.PostSelectPhotons in sim._instruction_map
+    if fam in ("itree", "ishots"):
+        bb = b[fam]
+        mid = pq.ImperfectParticleNumberMeasurement in mid
+        if pq.ImperfectParticleNumberMeasurement not in sim._instruction_map:
+            ctx.count("unsupported_not_implemented")
+            return
+        progs = enum_imperfect_programs(simkind, d, cutoff, bb["depth"], bb["max_meas"], bb["max_gates"], GATE_LETTERS, allow_ps, seed, mid, allow_mid, bb["pre_gate"])
+        if not mid:
+            # one probe of the shape the simulator refuses (an unsupported cell)
+            progs.append([{"k": "ipnm", "modes": [0], "ncols": cutoff}, {"k": "pnm", "modes": [1]}])
+        for i, ops in enumerate(progs):
+            if i % nchunk != ch:
+                continue
+            if fam == "itree":
+                case = dict(base, fam="tree", ops=ops)
+                run_case(ctx, case)
+                ctx.note_distinct(case)
+                if i < 2:
+                    ctx.sample(case)
+                continue
+            for N in ishots_N(ops, bb["N"]):
+                case = dict(base, fam="shots", ops=ops, shots=N)
+                if simkind == "passive":
+                    case["sampler"] = "owned"
+                run_case(ctx, case)
+                ctx.note_distinct(case)
+                if i < 1 and N == 2:
+                    ctx.sample(case)
+        return
     if fam == "tree":
         bb = b["tree"] if d < 4 else b["tree_d4"]
         progs = enum_programs(simkind, d, bb["depth"], bb["max_meas"], GATE_LETTERS, allow_ps, not allow_mid, seed, bb["max_gates"])
